@@ -3,6 +3,7 @@ package main
 import (
 	"context"
 	"fmt"
+	"math"
 	"runtime"
 	"sort"
 	"strings"
@@ -255,22 +256,79 @@ func c09(c *ev.Ctx) {
 	c09WorkAfterCancel(c)
 	c09StraightLine(c)
 	// finite scripts under a live context are unaffected
+	// (every kind of live context: no deadline at all, deadlines from a minute to the end of
+	// what a time.Time or a Duration can hold, a child of a live parent, a context carrying values)
+	type ctxKey string
+	liveContexts := []struct {
+		name string
+		mk   func() (context.Context, context.CancelFunc)
+	}{
+		{"one hour", func() (context.Context, context.CancelFunc) {
+			return context.WithTimeout(context.Background(), time.Hour)
+		}},
+		{"one minute", func() (context.Context, context.CancelFunc) {
+			return context.WithTimeout(context.Background(), time.Minute)
+		}},
+		{"background", func() (context.Context, context.CancelFunc) { return context.Background(), func() {} }},
+		{"cancellable, not cancelled", func() (context.Context, context.CancelFunc) { return context.WithCancel(context.Background()) }},
+		{"the longest duration", func() (context.Context, context.CancelFunc) {
+			return context.WithTimeout(context.Background(), time.Duration(math.MaxInt64))
+		}},
+		{"a hundred years", func() (context.Context, context.CancelFunc) {
+			return context.WithTimeout(context.Background(), 100*365*24*time.Hour)
+		}},
+		{"year 2262", func() (context.Context, context.CancelFunc) {
+			return context.WithDeadline(context.Background(), time.Date(2262, 4, 11, 23, 47, 16, 0, time.UTC))
+		}},
+		{"year 2263", func() (context.Context, context.CancelFunc) {
+			return context.WithDeadline(context.Background(), time.Date(2263, 1, 1, 0, 0, 0, 0, time.UTC))
+		}},
+		{"year 2400", func() (context.Context, context.CancelFunc) {
+			return context.WithDeadline(context.Background(), time.Date(2400, 1, 1, 0, 0, 0, 0, time.UTC))
+		}},
+		{"year 9999", func() (context.Context, context.CancelFunc) {
+			return context.WithDeadline(context.Background(), time.Date(9999, 12, 31, 23, 59, 59, 999999999, time.UTC))
+		}},
+		{"year 200000", func() (context.Context, context.CancelFunc) {
+			return context.WithDeadline(context.Background(), time.Date(200000, 1, 1, 0, 0, 0, 0, time.UTC))
+		}},
+		{"deadline in another zone", func() (context.Context, context.CancelFunc) {
+			return context.WithDeadline(context.Background(), time.Now().Add(time.Hour).In(time.FixedZone("far", -11*3600)))
+		}},
+		{"child of a live parent", func() (context.Context, context.CancelFunc) {
+			parent, pc := context.WithTimeout(context.Background(), 2*time.Hour)
+			child, cc := context.WithCancel(context.WithValue(parent, ctxKey("k"), "v"))
+			return child, func() { cc(); pc() }
+		}},
+	}
 	for fi, f := range c09Finite {
-		for _, noOpt := range []bool{false, true} {
-			id := fmt.Sprintf("finite/%d/%v", fi, noOpt)
-			if !c.Want(id) {
-				continue
-			}
-			ctx, cancel := context.WithTimeout(context.Background(), time.Hour)
-			evr, err := eng.New(f.script, eng.Options{Ctx: ctx, NoOptimize: noOpt})
-			got := "prepare error"
-			if err == nil {
-				got = evr.Exec(nil).Desc()
-			}
-			cancel()
-			c.Case(id, true)
-			if got != f.want {
-				c.Violation(id, "finite script affected by a live context", map[string]interface{}{"summary": fmt.Sprintf("%s under a live deadline gives %s, expected %s", f.script, got, f.want), "script": f.script})
+		for ci, lc := range liveContexts {
+			for _, noOpt := range []bool{false, true} {
+				for _, run := range []bool{false, true} {
+					id := fmt.Sprintf("finite/%d/%d/%v/%v", fi, ci, noOpt, run)
+					if !c.Want(id) {
+						continue
+					}
+					ctx, cancel := lc.mk()
+					evr, err := eng.New(f.script, eng.Options{Ctx: ctx, NoOptimize: noOpt})
+					got := "prepare error"
+					if err == nil {
+						if run {
+							b, e, p, _ := evr.RunBool(nil)
+							got = fmt.Sprintf("Run: %v err=%v panic=%v", b, e, p)
+							if e == nil && !p && b {
+								got = f.want // (every finite script returns a true value)
+							}
+						} else {
+							got = evr.Exec(nil).Desc()
+						}
+					}
+					cancel()
+					c.Case(id, true)
+					if got != f.want {
+						c.Violation(id, "finite script affected by a live context", map[string]interface{}{"summary": fmt.Sprintf("%s under a live context (%s; %s) gives %s, expected %s", f.script, lc.name, apiName(run), got, f.want), "script": f.script})
+					}
+				}
 			}
 		}
 	}
